@@ -176,6 +176,22 @@ func c03ScenarioOpt(r *rand.Rand, conflicts bool, c11 bool) (*txWorld, string, e
 			if c11 && r.Intn(2) == 0 {
 				fp += fmt.Sprintf("K%d", w.checkerStep())
 			}
+			if c11 && r.Intn(2) == 0 {
+				// a tracked transaction is announced again after the restart (the mempool of the
+				// new process does not know it), then the delay checker runs
+				var cand []*txInfo
+				for _, t := range pool {
+					if unconf[t] && !confirmed[t] {
+						cand = append(cand, t)
+					}
+				}
+				if len(cand) > 0 {
+					t := cand[r.Intn(len(cand))]
+					src := c03Sources[r.Intn(5)]
+					w.arrive(t, src, true)
+					fp += "A" + src[:1] + src[len(src)-1:] + fmt.Sprintf("K%d", w.checkerStep())
+				}
+			}
 		default:
 			w.pumpTxs()
 			fp += "e"
